@@ -114,3 +114,39 @@ Lemma ex_run : exists s',
   option_map (@c_orig Z) (dget 31 (s_cells s')) = Some (prov [1; 11; 20]) /\
   option_map (@c_mat Z) (dget 31 (s_cells s')) = Some 8.
 Proof. eexists. split; [vm_compute; reflexivity|]. split; vm_compute; reflexivity. Qed.
+
+(* the same deck read AS WRITTEN (cell 11's TRCL +3 moves it to x > 3 in universe 1): x = 9 is
+   x = 4 in universe 1, in cell 11, and x = 1 in universe 2, in cell 20; the hypotheses of the
+   chain theorem hold and the chain runs *)
+Lemma ex_locatedW : LocW Z sterm Z x_empty x_inv x_sense ex_state ex_du 1 9 [1; 11; 20] true.
+Proof.
+  change true with (true && (true && true)).
+  eapply LWFill with (cl := mkCell 0 0 (TSurf (-1)) 1 0 (Some 1) (Some 5) 0 [] []) (u := 1) (c := 11);
+    [reflexivity | reflexivity | cbn; auto
+    | eapply Den_surf_val with (o := SBase 10); reflexivity |].
+  eapply LWFill with (cl := mkCell 0 0 (TSurf 2) 1 1 (Some 2) None 0 [3] []) (u := 2) (c := 20);
+    [reflexivity | reflexivity | cbn; auto
+    | eapply Den_surf_val with (o := SBase 0); reflexivity |].
+  eapply LWLeaf with (cl := mkCell 8 3 (TSurf (-3)) 1 2 None None 0 [] []);
+    [reflexivity | reflexivity | eapply Den_surf_val with (o := SBase 2); reflexivity].
+Qed.
+
+Lemma ex_ref_free : all_ref_free Z sterm ex_state.
+Proof.
+  intros k cl H. apply dget_In in H. cbn in H.
+  repeat (destruct H as [H|H]; [inversion H; reflexivity|]). destruct H.
+Qed.
+
+Lemma ex_nodup : NoDup (map fst (s_cells ex_state)).
+Proof. cbn. repeat (constructor; [cbn; intuition discriminate|]). constructor. Qed.
+
+Lemma ex_chain : exists s1 rs s2 cells3,
+  x_trcl_phase 5 (map fst (s_cells ex_state)) ex_state = Ok s1 /\
+  x_fill_phase 5 5 false false s1 = Ok (rs, s2) /\
+  inline_cells Z 9 1 1 (s_cells s2) = Ok cells3 /\
+  rs = [[27; 31; 34]] /\
+  option_map (@c_orig Z) (dget 31 cells3) = Some (prov [1; 11; 20]).
+Proof.
+  do 4 eexists. split; [vm_compute; reflexivity|]. split; [vm_compute; reflexivity|].
+  split; [vm_compute; reflexivity|]. split; vm_compute; reflexivity.
+Qed.
